@@ -1,6 +1,6 @@
 (* C11 property theorems only. *)
 From Coq Require Import List NArith Bool Arith.
-From Verif Require Import C11.Model_C11 C11.Proofs_C11 C11.Proofs1_C11 C11.ModelS_C11 C11.ProofsS_C11 C11.ModelP_C11 C11.ProofsP_C11.
+From Verif Require Import C11.Model_C11 C11.Proofs_C11 C11.Proofs1_C11 C11.ModelS_C11 C11.ProofsS_C11 C11.ModelP_C11 C11.ProofsP_C11 C11.ProofsP2_C11.
 Import ListNotations.
 
 (* For every configuration, every behaviour of the operations, every number of workers and EVERY
@@ -147,3 +147,22 @@ Example C11_stateful_producer_example :
   p_pc s = PDone /\
   pscript s = [SuS 0; ScS 0 0; ScF 0 0 FAILURE; SuF 0 FAILURE; SuS 1; PIntr; SuF 1 INTERRUPTED].
 Proof. vm_compute. split; reflexivity. Qed.
+
+(* Statuses of the stateful phase: when the thread has ended, the phase status (the consumer's fold over SuiteFinished)
+   is at least as bad as the worst scenario reported, for every behaviour in which an exception raised by a step is what
+   Hypothesis' run() ends with (or something worse), every limit and every stop point.  The contract is needed. *)
+Theorem C11_stateful_status_covers_partial : forall c stop0 limit0 counter0 behs ls,
+  forallb consistent_beh behs = true ->
+  let s := prun c ls (pinit stop0 limit0 counter0 behs) in
+  p_pc s = PDone -> worst_scenario (pscript s) <= phase_rank (pscript s).
+Proof. exact producer_status_covers. Qed.
+Print Assumptions C11_stateful_status_covers_partial.
+
+Theorem C11_stateful_status_covers_needs_contract : exists c behs ls,
+  let s := prun c ls (pinit false false 0 behs) in
+  p_pc s = PDone /\ ~ worst_scenario (pscript s) <= phase_rank (pscript s).
+Proof.
+  exists {| p_maxf := None; p_maxex := 5 |}, [([[StFail 0]], RSkipTest)], (repeat LP 12).
+  destruct producer_status_needs_contract as (H1 & H2 & H3). split; [exact H1|]. rewrite H2, H3. intros Hc. inversion Hc.
+Qed.
+Print Assumptions C11_stateful_status_covers_needs_contract.
